@@ -3,10 +3,10 @@ package main
 // Obligation bookkeeping, evidence files, known findings, vacuity floors.
 
 import (
-	"golang.org/x/tools/go/ssa"
 	"crypto/sha1"
 	"encoding/json"
 	"fmt"
+	"golang.org/x/tools/go/ssa"
 	"os"
 	"path/filepath"
 	"sort"
@@ -164,6 +164,51 @@ func loadFloors(path string) (Floors, error) {
 	return f, nil
 }
 
+// verdict computes the exit code finish would return, without printing or
+// writing anything: 1 violation (not a known finding), 2 undecided or floor not
+// reached, 0 pass.
+func (c *Ctx) verdict(known *KnownFile, floors Floors) int {
+	nViol, nUndec := 0, 0
+	for _, o := range c.obls {
+		switch o.st {
+		case Violation:
+			isKnown := false
+			for _, k := range known.Known {
+				if k.Property == c.Prop && k.Rule == ruleID(o.Rule) && k.Construct == o.Construct {
+					isKnown = true
+				}
+			}
+			if !isKnown {
+				nViol++
+			}
+		case Undecided:
+			nUndec++
+		}
+	}
+	if nViol > 0 {
+		return 1
+	}
+	if nUndec > 0 {
+		return 2
+	}
+	if fl, ok := floors[c.Prop]; ok {
+		for r, min := range fl {
+			got := 0
+			for rule, n := range c.counts {
+				if ruleID(rule) == r {
+					got += n
+				}
+			}
+			if got < min {
+				return 2
+			}
+		}
+	} else {
+		return 2
+	}
+	return 0
+}
+
 // ---------- finish ----------
 
 type evidence struct {
@@ -250,6 +295,12 @@ func (c *Ctx) finish(verifDir string, meta propMeta, known *KnownFile, floors Fl
 
 	// ---- print ----
 	fmt.Printf("== %s tier=%s repo=%s packages=%d functions_analysed=%d load=%.1fs\n", c.Prop, c.Tier, c.P.RepoDir, len(c.P.Pkgs), c.analysed["functions"], c.P.LoadS)
+	if len(c.P.InlineSteps) > 0 {
+		fmt.Printf("   view: helper-inlined (%d transformation(s) of functions that are not on the reference list; positions marked ~ refer to the in-memory view)\n", len(c.P.InlineSteps))
+		for _, st := range c.P.InlineSteps {
+			fmt.Printf("   view: %s %s into %s (%s)\n", st.Kind, st.Callee, st.Caller, c.P.relFile(st.File))
+		}
+	}
 	var akeys []string
 	for k := range c.analysed {
 		akeys = append(akeys, k)
@@ -336,6 +387,7 @@ func (c *Ctx) finish(verifDir string, meta propMeta, known *KnownFile, floors Fl
 		"checker_cmd":         fmt.Sprintf("./check %s %s", c.Prop, c.Tier),
 		"trusted_base":        []string{"go/types", "go/ssa (x/tools v0.29.0)", "library semantic tables listed in DESIGN.md section 6"},
 		"floor_failures":      floorFail,
+		"view":                c.P.viewDescription(),
 	}
 	ev := evidence{PropertyID: c.Prop, Tier: c.Tier, Seed: seed, Level: "other", Coverage: cov,
 		Assumptions: meta.Assumptions, WallS: time.Since(t0).Seconds(), Violations: nViol}
